@@ -1352,8 +1352,22 @@ class Interp:
             c = obj[1]
             if self.prog.enum_members(c.qualname) is not None:
                 return tm.enum(c.qualname, obj[2])
-            return self.module_const(c.module, obj[2], obj[3],
-                                     key=f"{c.qualname}.{obj[2]}")
+            # (names of the class body — its methods — are in scope for a
+            # class-level table such as {(True, False): _multiply_right})
+            env_ = {mn: tm.func(mf.qualname) for mn, mf in c.methods.items()}
+            key_ = f"{c.qualname}.{obj[2]}"
+            if key_ not in self._const_cache:
+                for nn in ast.walk(obj[3]):
+                    if isinstance(nn, ast.Name) and nn.id != obj[2] and \
+                            nn.id not in env_:
+                        for k_ in self.prog.mro(c):
+                            if nn.id in k_.members and not isinstance(
+                                    k_.members[nn.id], ast.FunctionDef):
+                                env_[nn.id] = self.qual_to_term(
+                                    f"{k_.qualname}.{nn.id}")
+                                break
+            return self.module_const(c.module, obj[2], obj[3], key=key_,
+                                     env=env_)
         if q in _LIB_CONSTANTS:
             return const(_LIB_CONSTANTS[q])
         head = q.split(".")[0]
@@ -1363,12 +1377,13 @@ class Interp:
         return tm.glob(q)
 
     def module_const(self, m: Module, name: str, node: ast.AST,
-                     key: Optional[str] = None) -> T:
+                     key: Optional[str] = None,
+                     env: Optional[Dict[str, T]] = None) -> T:
         key = key or f"{m.name}.{name}"
         if key in self._const_cache:
             return self._const_cache[key]
         self._const_cache[key] = tm.glob(key)      # recursion guard
-        fr = Frame(None, m, {}, {}, None, 99)
+        fr = Frame(None, m, dict(env or {}), {}, None, 99)
         saved_events = self.events
         self.events = []
         try:
@@ -1741,6 +1756,8 @@ class Interp:
 
     def subscript(self, base: T, idx: T) -> T:
         b = self.unname(base)
+        if b.op == "global" and b.args[0] == "numpy.s_":
+            return idx                 # np.s_[a:b, c] is the index itself
         if idx.op == "index" and self.range_len.get(idx.args[0]) is not None \
                 and (self.range_len[idx.args[0]] is base or
                      self.unname(self.range_len[idx.args[0]]) is b):
@@ -1775,7 +1792,7 @@ class Interp:
             i = tm.const_val(idx)
             if -len(b.args) <= i < len(b.args):
                 return b.args[i]
-        if b.op == "dict" and self.unname(idx).op in ("const", "enum"):
+        if b.op == "dict" and _closed_key(self.unname(idx), self.unname):
             hit = _dict_lookup(b, self.unname(idx), self.unname)
             if hit is not None and hit is not _MISSING:
                 return hit
@@ -1806,8 +1823,10 @@ class Interp:
         for e in elts:
             if isinstance(e, ast.Starred):
                 v = self.eval(e.value, frame, live)
-                if v.op in ("tuple", "list"):
-                    out.extend(v.args)
+                vu = self.unname(v)
+                if vu.op in ("tuple", "list") and not any(
+                        x.op == "star" for x in vu.args):
+                    out.extend(vu.args)     # *CONSTANT_TUPLE, *[a, b]
                 else:
                     out.append(T("star", v))
             else:
@@ -2877,6 +2896,11 @@ class Interp:
                 argenv[p] = self.eval(defaults[p], fr, TRUE, quiet=True)
             else:
                 argenv[p] = tm.unknown(f"missing arg {p}")
+        va = target.node.args.vararg
+        if va is not None:
+            # *args: the extra positional arguments (none: the empty tuple)
+            argenv[va.arg] = bound.get(va.arg, T("tuple")) \
+                if "*" not in bound else tm.unknown(f"varargs {va.arg}")
         newf = self._make_frame(target, argenv, self_cls, frame.depth + 1)
         if any(isinstance(n, (ast.Yield, ast.YieldFrom))
                for st in target.node.body for n in ast.walk(st)):
@@ -3018,11 +3042,20 @@ def _dict_lookup(d: T, key: T, unname=lambda v: v):
                 found = inner
             continue
         ku = unname(k)
-        if ku.op not in ("const", "enum"):
+        if not _closed_key(ku, unname):
             return None
         if _canon(ku, unname) == _canon(key, unname):
             found = v
     return found
+
+
+def _closed_key(k: T, unname=lambda v: v) -> bool:
+    """a dictionary key whose value is known: a constant, an enumeration
+    member, or a tuple of those ((True, False): handler)"""
+    k = unname(k)
+    if k.op in ("const", "enum"):
+        return True
+    return k.op == "tuple" and all(_closed_key(x, unname) for x in k.args)
 
 
 def _dict_keys(d: T, unname=lambda v: v) -> Optional[List[T]]:
